@@ -78,6 +78,9 @@ Inits ==
              e \in {"int", "str"}}
     [] Fam = "sub" ->     \* a nested graph string -> string as a node, with / without input and output key
          {<<Hdr("graph", gi, go, FALSE), <<SubOp("n1", "str", "str", "str", x), PassOp("p1", "", "")>>>> : gi \in {"str", "msa"}, go \in {"str", "msa"}, x \in {"", "ik", "ok", "iok"}}
+    [] Fam = "subopt" ->  \* a nested graph / workflow as a node, with compile options of its own (trigger mode, step limit)
+         {<<Hdr("graph", "str", "str", FALSE), <<[SubOp("n1", "str", "str", "str", "") EXCEPT !.m = h], EdgeOp(START, "n1", ""), EdgeOp("n1", END, "")>>>> :
+             h \in {"", "gms", "gall", "gallms", "wf", "wfms"}}
     [] Fam = "cyc" ->    \* cycles behind double connections (an edge AND a branch from the same node into a cycle member), both trigger modes
          {<<Hdr("graph", "str", "str", FALSE), <<Plain("n1", "str", "str", "str"), Plain("n2", "str", "str", "str"), Plain("n3", "str", "str", "str"),
                                                  EdgeOp(START, "n1", ""), EdgeOp("n2", "n3", "")>>>>}
@@ -116,6 +119,7 @@ Alphabet(K) ==   \* K = keys declared so far
          \cup {[BranchOp(a, "str", <<"n2", END>>, END) EXCEPT !.x = "s1"] : a \in {START, "n1", "n2"}}
     [] Fam = "sub" ->
          {EdgeOp(p[1], p[2], "") : p \in {<<START, "n1">>, <<START, "p1">>, <<"p1", "n1">>, <<"n1", "p1">>, <<"n1", END>>, <<"p1", END>>, <<START, END>>}}
+    [] Fam = "subopt" -> {}
     [] Fam = "cyc" ->
          {EdgeOp(p[1], p[2], "") : p \in {q \in {"n1", "n2", "n3"} \X {"n1", "n2", "n3", END} : q[1] # q[2] /\ q # <<"n2", "n3">>}}
          \cup {BranchOp(p[1], "str", p[2], p[2][1]) : p \in {"n1", "n2", "n3"} \X {<<"n2", END>>, <<"n3", END>>, <<"n2", "n3">>}}
@@ -125,12 +129,14 @@ Alphabet(K) ==   \* K = keys declared so far
     [] Fam = "wf" -> {}
 CompileAlphabet == IF Fam \in {"seq", "seqs", "seqp"} THEN {CompileOp("any", ""), CompileOp("all", ""), CompileOp("all", "maxsteps"), CompileOp("any", "maxsteps")}
                    ELSE IF Fam = "cyc" THEN {CompileOp("any", ""), CompileOp("all", "")}
+                   ELSE IF Fam = "subopt" THEN {CompileOp("any", ""), CompileOp("all", ""), CompileOp("any", "maxsteps"), CompileOp("all", "maxsteps")}
+                   ELSE IF Fam \in {"wf", "wfin"} THEN {CompileOp("any", ""), CompileOp("any", "maxsteps"), CompileOp("all", "")}
                    ELSE IF Fam = "chain" THEN {CompileOp("any", ""), CompileOp("all", ""), CompileOp("any", "maxsteps")}
                    ELSE {CompileOp("any", "")}
 PostAlphabet(K) == IF Fam \in {"seq", "seqs", "seqp", "chain"} THEN Alphabet(K) \cup CompileAlphabet
                    ELSE IF Fam = "wf" THEN   \* on the retained *WorkflowNode handles (these calls return no error value)
-                        {CompileOp("any", ""), StaticOp("n1", "s", "b"), StaticOp("n1", "s2", "b"), EdgeOp(START, "n1", "fm2")}
-                   ELSE IF Fam = "wfin" THEN {CompileOp("any", "")}
+                        {CompileOp("any", ""), CompileOp("any", "maxsteps"), StaticOp("n1", "s", "b"), StaticOp("n1", "s2", "b"), EdgeOp(START, "n1", "fm2")}
+                   ELSE IF Fam \in {"wfin", "subopt"} THEN CompileAlphabet
                    ELSE {EdgeOp("n1", END, ""), PassOp("p9", "", ""), BranchOp(START, "any", <<"n1", END>>, END), CompileOp("any", "")}
 
 --------------------------------------------------------------------------------
@@ -145,7 +151,7 @@ builder == <<nodes, ctrl, data, brs, tv, mayE, preNode, fmk, berr, compiled, sta
 case == <<hdr, todo, plen, hist>>
 
 AllKeys == {"n1", "n2", "n3", "p1", "p2", "p9", "zz"}
-NoNode == [kind |-> "none", i |-> "nil", o |-> "nil"]
+NoNode == [kind |-> "none", i |-> "nil", o |-> "nil", s |-> ""]     \* s: nested graph kind + compile options of a sub node
 NoCur == [j |-> 0, a |-> "", b |-> "", rem |-> {}, op |-> CompileOp("", "")]
 NoSnap == [set |-> FALSE, mayE |-> {}, brmay |-> <<>>, preNode |-> [k \in AllKeys |-> 0]]
 Init == /\ \E x \in Inits : hdr = x[1] /\ todo = x[2] /\ plen = Len(x[2])
@@ -178,7 +184,8 @@ DoNode(op, j) ==
              \/ (op.h = "post" /\ (IF pass THEN op.t # "any" ELSE op.t # op.o))
   IN IF bad THEN Fail(j) /\ UNCHANGED <<nodes, ctrl, data, brs, tv, mayE, preNode, fmk, compiled, startN, endN, ch, wf, snap>>
      \* graph_node.go:94-120: an input / output key makes the node's type map[string]any BEFORE the nested graph's own type is looked at
-     ELSE /\ nodes' = [nodes EXCEPT ![op.k] = [kind |-> IF pass THEN "pass" ELSE "typed", i |-> IF pass THEN "nil" ELSE EffIn(op), o |-> IF pass THEN "nil" ELSE EffOut(op)]]
+     ELSE /\ nodes' = [nodes EXCEPT ![op.k] = [kind |-> IF pass THEN "pass" ELSE "typed", i |-> IF pass THEN "nil" ELSE EffIn(op), o |-> IF pass THEN "nil" ELSE EffOut(op),
+                                                   s |-> IF op.op = "sub" THEN op.m ELSE ""]]
           /\ Finish("ok") /\ UNCHANGED <<ctrl, data, brs, tv, mayE, preNode, fmk, berr, compiled, startN, endN, ch, wf, snap>>
 
 (* addEdgeWithMappings (control + data edge) up to the call of updateToValidateMap *)
@@ -248,6 +255,8 @@ BrLoop ==
 \* validateDAG: repeatedly release the nodes all of whose non-START control predecessors are released
 CtrlPairs == ctrl \cup UNION {{<<brs[b].a, e>> : e \in brs[b].ends} : b \in 1..Len(brs)}
 Untyped == {k \in Declared : nodes[k].i = "nil"}
+\* a nested graph compiled with its node's options refuses a step limit when its effective mode is all-predecessor
+SubRefused(h) == h \in {"gallms", "wfms"}
 DagOKOn(C) == LET RECURSIVE Rel(_)
                   Rel(R) == LET R2 == R \cup {n \in Declared : \A p \in C : (p[2] = n /\ p[1] # START) => p[1] \in R} IN IF R2 = R THEN R ELSE Rel(R2)
               IN Rel({}) = Declared
@@ -302,10 +311,13 @@ DoCompile(op, j) ==
       cpairs == R.ctrl \cup UNION {{<<brs[b].a, e>> : e \in brs[b].ends} : b \in 1..Len(brs)}
       res0 == IF berr # 0 THEN "S"
              ELSE IF wfres # "ok" THEN wfres
+             ELSE IF isWf /\ op.m = "all" THEN "E"          \* graph.go:640-644: chain and workflow refuse the trigger-mode option
              ELSE IF err1 THEN "E"
+             \* graph.go:697-705 compileIfNeeded: a nested graph is compiled with the node's own compile options, its refusal is the parent's
+             ELSE IF \E k \in Declared : SubRefused(nodes[k].s) THEN "E"
              ELSE IF dag /\ ~DagOKOn(cpairs) THEN "E"
              ELSE IF Untyped # {} THEN "P"               \* graph.go:809-811 dereferences the nil genericHelper of an untyped node
-             ELSE IF op.m = "all" /\ op.x = "maxsteps" THEN "E"
+             ELSE IF dag /\ op.x = "maxsteps" THEN "E"      \* graph.go:853: tested on the DERIVED mode (a workflow is all-predecessor by kind)
              ELSE "ok"
       \* graph.go:640-644: a chain refuses the trigger-mode option (after addEndIfNeeded)
       V == IF chV # "" THEN (IF chV = "B!" THEN "B" ELSE chV)
@@ -331,7 +343,7 @@ DoCompile(op, j) ==
 DoAppend(op, j) ==
   LET prev == IF ch.pre = "" THEN START ELSE ch.pre
       r == Check(OutType(prev), op.i)
-      node == [kind |-> "typed", i |-> op.i, o |-> op.o]
+      node == [kind |-> "typed", i |-> op.i, o |-> op.o, s |-> ""]
   IN /\ Finish("ok")
      /\ IF ch.err # "" THEN UNCHANGED builder
         ELSE IF compiled THEN ch' = [ch EXCEPT !.err = "compiled"]        \* refused: ErrChainCompiled goes into c.err
